@@ -14,6 +14,8 @@ open Streams
         a        Available            → `a=<n>`
         G<cnt>   cnt × GetStream      → `G=<successes>/<xor of ids>/<sum of ids>/<last id>`
         s        bitset               → `s=<i:hex|i-j:hex,…>` (non-zero words, equal runs compressed) | `s=-`
+        O<v> | Ot<k> | Om<k>   "any history": the rotating offset word is set to v / 2^32 - k / 2^31 - k (the
+                 harness stores it through a reflection hook; `Streams.presetOffset`)   → `O`
   conc <proto> <k> P <seq ops…> T <ops of thread 0> T <ops of thread 1> … S <digits>
       lock-step run of the small-step machine (`Streams.step`): after the sequential prefix P,
       the k threads run their scripts; each digit of the schedule lets that thread perform ONE
@@ -36,8 +38,8 @@ open Streams
       scenarios whose scripts respect the client protocol (every Clear names an id in use after P, no id is
       named twice; static criterion) additionally: ids unique among held ids, no panic at all,
       Available = NumStreams-1-#held at the end
-  smon <proto> <op> …   (ops g, c<id>, a, G<cnt>) sequential spec monitor (`Streams.specCheck`, theorem
-      C08_sequential_spec): `ok` iff every answer is allowed by the abstract id-set specification and
+  smon <proto> <op> …   (ops g, c<id>, a, G<cnt>, O…) sequential spec monitor (`Streams.specCheck`, theorems
+      C08_sequential_spec, C08_sequential_spec_any_history): `ok` iff every answer is allowed by the abstract id-set specification and
       Available() = NumStreams-1-#held after EVERY op; `n/a` if the ops contain c0 (excluded case)
 -/
 
@@ -74,6 +76,13 @@ def parseOp (w : String) : Option Op :=
   else if w.startsWith "c" then (w.drop 1).toNat?.map Op.clear
   else none
 
+/-- preset token of the offset word: `O<v>`, `Ot<k>` = 2^32 - k, `Om<k>` = 2^31 - k (mod 2^32) -/
+def parsePreset (w : String) : Option Nat :=
+  if w.startsWith "Ot" then (w.drop 2).toNat?.map (fun k => (4294967296 - k % 4294967296) % 4294967296)
+  else if w.startsWith "Om" then (w.drop 2).toNat?.map (fun k => (4294967296 + 2147483648 - k % 4294967296) % 4294967296)
+  else if w.startsWith "O" then (w.drop 1).toNat?.map (fun v => v % 4294967296)
+  else none
+
 def getN : Nat → Shared → Nat → Nat → Nat → Nat → Shared × String
   | 0, sh, succ, x, sum, last =>
     (sh, "G=" ++ toString succ ++ "/" ++ toString x ++ "/" ++ toString sum ++ "/" ++ toString last)
@@ -85,6 +94,7 @@ def getN : Nat → Shared → Nat → Nat → Nat → Nat → Shared × String
 /-- one sequential op token -/
 def seqTok (sh : Shared) (w : String) : Option (Shared × String) :=
   if w == "s" then some (sh, showState sh.words)
+  else if w.startsWith "O" then (parsePreset w).map (fun v => (presetOffset sh v, "O"))
   else if w.startsWith "G" then
     match (w.drop 1).toNat? with
     | some c => some (getN c sh 0 0 0 0)
@@ -288,10 +298,12 @@ def monitorsAny (c : Conc) (w0 : List Word) : Bool :=
     && ids.foldl clrId ws == ids.foldl clrId w0
     && decide (available c.st.sh = ((cap - popcount ws : Nat) : Int))
 
-def parseSeqOps : List String → Option (List Op)
+def parseSeqOps : List String → Option (List HOp)
   | [] => some []
   | w :: ws =>
-    match (if w.startsWith "G" then (w.drop 1).toNat?.map (fun c => List.replicate c Op.get) else (parseOp w).map (fun o => [o])),
+    match (if w.startsWith "G" then (w.drop 1).toNat?.map (fun c => List.replicate c (HOp.op Op.get))
+           else if w.startsWith "O" then (parsePreset w).map (fun v => [HOp.setOffset v])
+           else (parseOp w).map (fun o => [HOp.op o])),
           parseSeqOps ws with
     | some a, some b => some (a ++ b)
     | _, _ => none
@@ -326,10 +338,10 @@ def step (cache : Cache) (ws : List String) : Cache × String :=
   | "smon" :: p :: ops =>
     match p.toNat?, parseSeqOps ops with
     | some proto, some l =>
-      if l.contains (.clear 0) then (cache, "n/a")
+      if l.contains (.op (.clear 0)) then (cache, "n/a")
       else
         let n := wordsOfProto proto
-        (cache, if seqMon (64 * n) (Streams.init n) (specInit (64 * n)).tbl 0 l then "ok" else "violated:model")
+        (cache, if seqMonH (64 * n) (Streams.init n) (specInit (64 * n)).tbl 0 l then "ok" else "violated:model")
     | _, _ => (cache, "bad-op")
   | _ => (cache, "bad-op")
 
